@@ -500,16 +500,18 @@ class merge_plan:
         else:
             self._dprint("processing   %s%s", (depth * 2 * " ", atom))
 
-        ret = self.check_for_cycles(stack, stack.current_frame)
-        if ret is not True:
-            stack.pop_frame(ret is None)
-            return ret
-
         failures = []
 
         debugging = self._debugging
         last_state = None
         while choices:
+            # the cycle check looks at the current candidate; redo it
+            # whenever the candidate changes.
+            ret = self.check_for_cycles(stack, stack.current_frame)
+            if ret is not True:
+                stack.pop_frame(ret is None)
+                return ret
+
             if debugging:
                 new_state = choices.state
                 if last_state == new_state:
